@@ -35,7 +35,8 @@ SubPart == <<Text(<<"s", ":">>), Emit(Id("d")), Emit(Id("o"))>>
 
 Comps == {"cfor_omit", "partial", "partial_js", "partial_html", "partial_nodata", "layout", "layout2", "layout_js", "nested", "cfor", "cfor_twice", "cfor_redefined",
           "cof_default", "cof_undefined", "cof_defined_default", "blk", "blkown", "blks", "cfor_inloop", "layout_cfor",
-          "layout_shared", "layout_sharedloop", "cfor_changed", "partial_nil", "cof_nil", "cfor_timefmt", "partial_timefmt", "blkown_timefmt", "cofdefault_timefmt"}
+          "layout_shared", "layout_sharedloop", "cfor_changed", "partial_nil", "cof_nil", "cfor_timefmt", "partial_timefmt", "blkown_timefmt", "cofdefault_timefmt",
+          "partial_dotdir", "partial_dotdir_html", "reentrant_self", "reentrant_twin"}
 CTs == {"none", "html", "js"}
 CT(c) == CASE c = "none" -> EmptyScope [] c = "html" -> [contentType |-> S(<<"t","e","x","t","/","h","t","m","l">>)]
            [] c = "js" -> [contentType |-> S(<<"a","p","p","/","j","a","v","a","s","c","r","i","p","t">>)]
@@ -53,6 +54,16 @@ Compose(c, body) ==
   CASE c = "partial"      -> [prog |-> <<Emit(Call("partial", <<P(<<"p">>), DH>>))>>, parts |-> [p |-> body], inline |-> <<Emit(CallB("blkown", <<DH>>, body))>>]
     [] c = "partial_js"   -> [prog |-> <<Emit(Call("partial", <<P(<<"p", ".", "j", "s">>), DH>>))>>, parts |-> [x \in {"p.js"} |-> body], inline |-> <<Emit(CallB("blkown", <<DH>>, body))>>]
     [] c = "partial_html" -> [prog |-> <<Emit(Call("partial", <<P(<<"p", ".", "h", "t", "m", "l">>), DH>>))>>, parts |-> [x \in {"p.html"} |-> body], inline |-> <<>>]
+    \* the directory of the partial has a dot: the extension is that of the file name alone
+    [] c = "partial_dotdir" -> [prog |-> <<Emit(Call("partial", <<P(<<"v", ".", "1", "/", "p">>), DH>>))>>, parts |-> [x \in {"v.1/p"} |-> body], inline |-> <<Emit(CallB("blkown", <<DH>>, body))>>]
+    [] c = "partial_dotdir_html" -> [prog |-> <<Emit(Call("partial", <<P(<<"v", ".", "1", "/", "p", ".", "h", "t", "m", "l">>), DH>>))>>, parts |-> [x \in {"v.1/p.html"} |-> body], inline |-> <<>>]
+    \* a partial whose text is being executed includes the same text again (itself, or a partial with identical text): what follows the
+    \* inner call still reads the OUTER call's data
+    [] c \in {"reentrant_self", "reentrant_twin"} ->
+         LET inner == IF c = "reentrant_self" THEN "p" ELSE "q"
+             txt == <<Text(<<"(">>)>> \o body \o <<Emit(IfChain(Id("deep"), <<Emit(Call("partial", <<Str(<<inner>>), Hash(<<"d", "deep">>, <<Str(<<"i", "n">>), Bool(FALSE)>>)>>))>>, <<>>, <<>>, FALSE)),
+                      Text(<<"|">>), Emit(Id("d")), Text(<<")">>)>> IN
+         [prog |-> <<Emit(Call("partial", <<P(<<"p">>), Hash(<<"d", "deep">>, <<D, Bool(TRUE)>>)>>))>>, parts |-> [x \in {"p", inner} |-> txt], inline |-> <<>>]
     [] c = "partial_nodata" -> [prog |-> <<Let("d", D), Emit(Call("partial", <<P(<<"p">>)>>))>>, parts |-> [p |-> body], inline |-> <<Let("d", D), Emit(CallB("blkown", <<Hash(<<>>, <<>>)>>, body))>>]
     [] c = "layout"       -> [prog |-> <<Emit(Call("partial", <<P(<<"p">>), Hash(<<"d", "layout">>, <<D, Str(<<"l">>)>>)>>))>>, parts |-> [p |-> body, l |-> Lay], inline |-> <<>>]
     [] c = "layout2"      -> [prog |-> <<Emit(Call("partial", <<P(<<"p">>), Hash(<<"d", "layout">>, <<D, Str(<<"m">>)>>)>>))>>,
@@ -129,7 +140,7 @@ Next == AddItem \/ Finish
 Spec == Init /\ [][Next]_vars
 
 \* composed = inline (where an inline equivalent is claimed and no javascript escaping is in play)
-JsInPlay == ct = "js" /\ (comp \in {"partial_html", "layout_js"} \/ \E i \in 1..Len(names) : names[i] = "sub")
+JsInPlay == ct = "js" /\ (comp \in {"partial_html", "layout_js", "partial_dotdir_html"} \/ \E i \in 1..Len(names) : names[i] = "sub")
 HasInline == Built.inline # <<>> /\ ~(ct = "js" /\ \E i \in 1..Len(names) : names[i] = "sub")
 InlineRes == Run(Pre \o Built.inline \o Post, WithHelpers(DataOf(ct)), WithSub(EmptyScope), "")
 InlineTheorem == (res.k # "none" /\ HasInline) => (InlineRes.k = res.k /\ (res.k = "out" => PieceChars(InlineRes.pieces) = PieceChars(res.pieces)))
